@@ -159,8 +159,10 @@ def harnesses(tier):
         for m in ("head", "tail", "drop_na", "replace_na", "concat", "sample", "tolist", "equal"):
             if k == "O": continue
             hs.append(VecMisc(m, k, N))
-        for m in ("deepcopy", "copy", "to_list_of_dicts", "map"):
+        for m in ("deepcopy", "copy", "to_list_of_dicts", "map", "clear"):
             hs.append(DfMisc(m, k, N))
+        if k in ("f", "T"): hs.append(VecMisc("map", k, N))
+        if k == "f": hs.append(VecMisc("range", k, N))
     for m in ("filter_out", "slice", "slice_off", "head", "tail", "sample"):
         hs.append(NoMutate(c02.Subset(m, "f", N, "mask" if m == "filter_out" else None), [("data", "recv")]))
     hs.append(NoMutate(c02.Subset("slice", "U", N), [("data", "recv")]))
